@@ -170,10 +170,13 @@ func (w *World) newStdioClient(name string) *Client {
 	link.Err = s.NewPipe(name + ".stderr")
 	srv := mcp.NewStdioServer("verif-server", "1.2.3", mcp.WithStdioServerLogger(nopLogger{}))
 	link.Srv = srv
+	// order matters when registrations race process creation: publish the process first, then apply
+	// the setups known so far (a setup added meanwhile is applied by addStdioSetup; double application
+	// of a registration is harmless)
+	w.stdios = append(w.stdios, link)
 	for _, f := range w.stdioSetupsOf() {
 		f(srv)
 	}
-	w.stdios = append(w.stdios, link)
 	ctx, cancel := context.WithCancel(context.Background())
 	link.cancel = cancel
 	link.Task = s.Go(name+"/proc", func() {
